@@ -105,7 +105,9 @@ def run(facts, rep, tier):
     for h in c.user_fns():
         # (a) the arm in the struct-member converter
         for n, _ in nodes(h["body"], "let"):
-            if n["pat"].get("k") == "bind" and "deny" in n["pat"]["name"] and n.get("init", {}).get("k") == "match":
+            # the bool computed by a case analysis of the schema's `additionalProperties`
+            if n["pat"].get("k") == "bind" and (n.get("init") or {}).get("k") == "match" and n["init"].get("src") == "normal" and any(src(block_last(a_["body"])) in ("true", "false") for a_ in n["init"]["arms"]) and \
+                    any(x.get("k") == "field" and x["name"] == "additional_properties" for x, _ in walk(n["init"]["scrut"])):
                 for arm in n["init"]["arms"]:
                     val = src(block_last(arm["body"]))
                     if val == "true":
@@ -148,7 +150,7 @@ def run(facts, rep, tier):
         for i, n in enumerate(lens):
             ok = n["name"] == "count" and n["recv"].get("k") == "mcall" and n["recv"]["name"] == "chars"
             rep.ob("C02.W3", "length-in-chars:generator#%d" % i, ok, "`%s`" % src(n) if ok else "enum values are filtered by byte length `%s`: a valid non-ASCII value is unrepresentable in the generated enum" % src(n), n.get("sp"))
-        rep.floor("C02.W3", "length measurements", len(lens), 2)
+        rep.floor("C02.W3", "length measurements", len(lens), 1)
 
     # ------------------------------------------------------------ W4
     alloc = []
